@@ -201,10 +201,12 @@ func perms(n int, f func(p []int)) {
 	rec(0)
 }
 
-var nameMenu = []string{"", "a", "b", "aa", "A", "\x00", "é", "\ue000", "\uffff", "\U00010000", "\U0010FFFF", "\u20ac", "1", "10", "2"}
+var nameMenu = []string{"", "a", "b", "aa", "A", "\x00", "é", "\ue000", "\uffff", "\U00010000", "\U0010FFFF", "\u20ac", "1", "10", "2",
+	// ASCII first, then the code units that sort differently as UTF-16 and as UTF-8
+	"k\ufb33", "k\U0001F600", "a\uffff", "a\U00010000"}
 
 func Run(r *evid.Run) {
-	r.Rule("generated I-JSON texts: (a) objects over every subset of <=K names from a 15-name menu (incl. U+E000..U+FFFF vs supplementary planes) in EVERY member order x whitespace styles x name spellings; (b) numbers: powers of ten 1e-330..1e310, neighbours of the 1e-6/1e21 layout switches, 2^53+-1, extremes, each in 8 spellings; (c) every code point class as a string in every escape spelling; (d) all nested trees of <=N nodes over small leaf/name menus, members permuted. Oracle: Canonicalize(text) == RFC 8785 serialization of the text's tree by the reference serializer (== the base tree's form for every respelling), denotes the same value, fixed point. evaluations = texts canonicalized; distinct_nontrivial = distinct texts that are not already canonical")
+	r.Rule("generated I-JSON texts: (a) objects over every subset of <=K names from a 19-name menu (incl. U+E000..U+FFFF vs supplementary planes) in EVERY member order x whitespace styles x name spellings; (b) numbers: powers of ten 1e-330..1e310, neighbours of the 1e-6/1e21 layout switches, 2^53+-1, extremes, each in 8 spellings; (c) every code point class as a string in every escape spelling; (d) all nested trees of <=N nodes over small leaf/name menus, members permuted. Oracle: Canonicalize(text) == RFC 8785 serialization of the text's tree by the reference serializer (== the base tree's form for every respelling), denotes the same value, fixed point. evaluations = texts canonicalized; distinct_nontrivial = distinct texts that are not already canonical")
 	r.Assume("reference RFC 8785 serializer internal/refjson (UTF-16 sort via unicode/utf16, ES6 number layout over strconv shortest digits)")
 	K, N := 3, 4
 	if r.Tier == "thorough" {
